@@ -60,7 +60,8 @@ HSetServers(e) ==
        /\ owedO' = [s \in all |-> IF s \in DOMAIN owedO THEN owedO[s] ELSE 0]
        /\ q' = DropDoneProbes(q)
        /\ now' = e.now
-       /\ UNCHANGED <<cfg, fdi, proc, oos, xvars>> /\ Acc
+       /\ proc' = [proc EXCEPT !.ss = e.depth + 1]       \* nesting level at which the list edit runs
+       /\ UNCHANGED <<cfg, fdi, oos, xvars>> /\ Acc
 
 (* The first visible effect of destroying a dying server -- a query that was in flight on it is re-sent or
    completed, or one of its connections is closed -- shows that its turn has come: it leaves the list together
@@ -78,7 +79,7 @@ DyingTarget(e) ==
        \* in list order that has something assigned to it
        LET busy == {d \in Dying : InflightOn(d) # {}}
            first == {d \in busy : \A d2 \in busy : d2 = d \/ BeforeIn(srv, d, d2)}
-       IN IF nest = 1 /\ first # {} /\ \A id \in DOMAIN q : q[id].st = "tosend" => (q[id].tcp /\ q[id].qsrv # 0)
+       IN IF nest = proc.ss /\ first # {} /\ \A id \in DOMAIN q : q[id].st = "tosend" => (q[id].tcp /\ q[id].qsrv # 0)
           THEN CHOOSE d \in first : TRUE ELSE 0
   ELSE IF e.e = "cbb" THEN
        LET ids == {id \in DOMAIN q : q[id].t = e.t /\ ~q[id].probe}
@@ -106,7 +107,7 @@ HClose(e) ==
 
 HCall(e) ==
   IF e.api = "process" THEN
-       /\ proc' = [in |-> TRUE, nonfd |-> (e.how # "fdonly"), nrecv |-> 0, inbox |-> <<>>]
+       /\ proc' = [in |-> TRUE, nonfd |-> (e.how # "fdonly"), nrecv |-> 0, inbox |-> <<>>, ss |-> 0]
        /\ now' = e.now
        /\ UNCHANGED <<cfg, srv, fdi, q, owedF, owedO, oos, xvars>> /\ Acc
   ELSE IF e.api \in SimpleApis \/ (e.api \in {"search", "lsearch"} /\ Len(cfg.domains) = 0 /\ cfg.hostaliases = 0) THEN
@@ -404,13 +405,14 @@ HRet(e) ==
        \* the list edit is complete: whatever was still marked is gone (and must not have anything in flight)
        IF \E d \in Dying : InflightOn(d) # {} THEN Rej("c09.query_left_on_removed_server")
        ELSE /\ srv' = Without(srv, Dying) /\ owedF' = Without(owedF, Dying) /\ owedO' = Without(owedO, Dying)
-            /\ UNCHANGED <<cfg, now, fdi, q, proc, oos, xvars>> /\ Acc
+            /\ proc' = [proc EXCEPT !.ss = 0]
+            /\ UNCHANGED <<cfg, now, fdi, q, oos, xvars>> /\ Acc
   ELSE IF e.depth # 0 THEN Skip
   ELSE IF \E id \in DOMAIN q : q[id].st = "tosend" /\ ~TcpQueued(id) THEN Rej("c06.retry_not_performed")
   ELSE IF \E id \in DOMAIN q : q[id].st = "ending" THEN Rej("c06.completion_not_delivered")
   ELSE IF \E s \in DOMAIN srv : owedF[s] > 0 \/ owedO[s] > 0 THEN Rej("c09.server_state_notification_missing")
   ELSE IF e.api = "process" /\ proc.nonfd /\ ~NoneOverdue THEN Rej("c07.overdue_query_not_processed")
-  ELSE /\ proc' = [in |-> FALSE, nonfd |-> FALSE, nrecv |-> 0, inbox |-> <<>>]
+  ELSE /\ proc' = [in |-> FALSE, nonfd |-> FALSE, nrecv |-> 0, inbox |-> <<>>, ss |-> 0]
        /\ UNCHANGED <<cfg, now, srv, fdi, q, owedF, owedO, oos, xvars>> /\ Acc
 
 HHint(e) ==
@@ -448,7 +450,7 @@ TNext ==
             /\ l' = l + 1
             /\ (hid # "" => PrintT(ToJson(Verdict)))
             /\ cfg' = [nsrv |-> 0] /\ now' = 0 /\ srv' = <<>> /\ fdi' = <<>> /\ q' = <<>> /\ owedF' = <<>> /\ owedO' = <<>>
-            /\ proc' = [in |-> FALSE, nonfd |-> FALSE, nrecv |-> 0, inbox |-> <<>>] /\ oos' = FALSE
+            /\ proc' = [in |-> FALSE, nonfd |-> FALSE, nrecv |-> 0, inbox |-> <<>>, ss |-> 0] /\ oos' = FALSE
             /\ toks' = <<>> /\ tcpin' = <<>> /\ openfail' = "" /\ newtry' = <<>>
             /\ bad' = FALSE /\ why' = [line |-> 0, label |-> ""]
             /\ hid' = e.id /\ nest' = 0
